@@ -1153,10 +1153,12 @@ namespace Dune
       nonsingularLanes(true);
 
     AutonomousValue<MAT>::luDecomposition(A, ElimDet(det), nonsingularLanes, false, doPivoting);
-    det = Simd::cond(nonsingularLanes, det, field_type(0));
 
     for (size_type i = 0; i < rows(); ++i)
       det *= A[i][i];
+    // mask singular lanes only after the product: their diagonal may hold
+    // inf/NaN (the elimination continues for the other lanes), and 0*NaN is NaN
+    det = Simd::cond(nonsingularLanes, det, field_type(0));
     return det;
   }
 
